@@ -166,6 +166,60 @@ func runMuxLiveness(role, kind string) (impl, pred string) {
 	return impl, pred
 }
 
+// runEarlyAccept: a real gRPC plugin accepts IDs 1..3 while its server is being initialised; the host attaches `delay`
+// later (its broker stream starts only then) and dials each ID at once: every first call must be answered by its ID.
+func runEarlyAccept(delay time.Duration) (impl, pred string) {
+	base := fmt.Sprintf("%s/c07-early-%d", os.Getenv("VERIF_WORK"), os.Getpid())
+	os.MkdirAll(base, 0o755)
+	defer os.RemoveAll(base)
+	var hb *plugin.GRPCBroker
+	cmd := kitCmd(kitServeCfg{Sets: map[string]string{"3": "grpc"}, GRPCServer: true}, "TMPDIR="+base, "GPV_EARLY_ACCEPT=1,2,3")
+	client := plugin.NewClient(&plugin.ClientConfig{
+		HandshakeConfig:  kitHandshake(),
+		VersionedPlugins: kitHostSets(map[int]string{3: "grpc"}, nil, func(b *plugin.GRPCBroker) { hb = b }),
+		AllowedProtocols: []plugin.Protocol{plugin.ProtocolGRPC},
+		Cmd:              cmd,
+		Logger:           nullLogger(),
+		StartTimeout:     10 * time.Second,
+	})
+	defer func() {
+		withTimeout(8*time.Second, func() error { client.Kill(); return nil })
+		if cmd.Process != nil {
+			cmd.Process.Kill()
+		}
+	}()
+	if _, err := client.Start(); err != nil {
+		return "setup-error", "FAIL:setup-start"
+	}
+	time.Sleep(delay)
+	cp, err := client.Client()
+	if err != nil {
+		return "setup-error", "FAIL:setup-client"
+	}
+	if _, err := cp.Dispense("kit"); err != nil || hb == nil {
+		return "setup-error", "FAIL:setup-dispense"
+	}
+	var rs []string
+	pred = "ok"
+	for id := uint32(1); id <= 3; id++ {
+		ans, conn, err := pingKeep(hb, id, 8*time.Second)
+		if conn != nil {
+			defer conn.Close()
+		}
+		switch {
+		case err != nil:
+			rs = append(rs, "err")
+			pred = "FAIL:dial-of-an-id-accepted-before-the-host-attached-failed"
+		case ans != fmt.Sprint(id):
+			rs = append(rs, "wrong:"+ans)
+			pred = "FAIL:misrouted"
+		default:
+			rs = append(rs, "ok")
+		}
+	}
+	return "res=" + strings.Join(rs, ","), pred
+}
+
 // runGonePeerDial: the accepting side accepts an ID (its connection info reaches the dialling side) and goes away again —
 // it closes the listener — before the other side dials the ID, with the caller's own grpc.WithBlock() among the options.
 // The dial must end with an error within the window; afterwards a fresh pair works.
@@ -384,6 +438,57 @@ func runMuxRedial(role string, gap time.Duration) (impl, pred string) {
 	return impl, "ok"
 }
 
+// runMuxReaccept: one id is accepted, dialled and used; that brokered server is shut down (its listener closed); the same id
+// is accepted AGAIN and dialled again: the second server must be the one that answers.
+func runMuxReaccept(role string) (impl, pred string) {
+	p, err := newGrpcPair(true)
+	if err != nil {
+		return "setup-error", "FAIL:setup"
+	}
+	defer p.close()
+	acceptor, dialler := p.plug, p.host
+	if role == "client" {
+		acceptor, dialler = p.host, p.plug
+	}
+	round := func(tag string) string {
+		ln, err := acceptor.Accept(43)
+		if err != nil {
+			return "accept-err"
+		}
+		srv := grpc.NewServer()
+		grpctest.RegisterPingPongServer(srv, &pingPong{id: 43})
+		done := make(chan struct{})
+		go func() { defer close(done); srv.Serve(ln) }()
+		time.Sleep(150 * time.Millisecond)
+		ans, conn, err := pingKeep(dialler, 43, 8*time.Second)
+		if conn != nil {
+			conn.Close()
+		}
+		srv.Stop()
+		ln.Close()
+		select {
+		case <-done:
+		case <-time.After(3 * time.Second):
+			return "serve-stuck"
+		}
+		if err != nil || ans != "43" {
+			return "failed"
+		}
+		return "ok"
+	}
+	first := round("a")
+	time.Sleep(300 * time.Millisecond)
+	second := round("b")
+	impl = fmt.Sprintf("first=%s second=%s", first, second)
+	switch {
+	case first != "ok":
+		return impl, "FAIL:first-round-failed"
+	case second != "ok":
+		return impl, "FAIL:re-accepted-id-not-served"
+	}
+	return impl, "ok"
+}
+
 // ---------------------------------------------------------------- C07: timed histories, no multiplexing
 
 func runGrpcHistory(h *history) ([]opResult, error) {
@@ -574,6 +679,11 @@ func init() {
 		for dir := 0; dir < 2; dir++ {
 			impl, pred := runGrpcBurst(120, dir)
 			o.emit(fmt.Sprintf("!C07.burst n=120 dir=%d", dir), impl, pred)
+		}
+		// accepts issued by the plugin BEFORE the host has attached (its broker stream is not up yet)
+		{
+			impl, pred := runEarlyAccept(2 * time.Second)
+			o.emit("!C07.early-accept delay=2000 ids=1,2,3", impl, pred)
 		}
 		// the premise "distinct IDs": concurrent reservations on one GRPCBroker never collide
 		func() {
@@ -829,6 +939,11 @@ func init() {
 		parallel(len(rds), len(rds), func(i int) { rds[i].impl, rds[i].pred = runMuxRedial(rds[i].role, 5600*time.Millisecond) })
 		for _, x := range rds {
 			o.emit("!C08.redial role="+x.role+" gap=5600", x.impl, x.pred)
+		}
+		// the same id accepted again after its first brokered server was shut down
+		for _, role := range []string{"server", "client"} {
+			impl, pred := runMuxReaccept(role)
+			o.emit("!C08.reaccept role="+role, impl, pred)
 		}
 	})
 }
